@@ -235,6 +235,12 @@ Definition fit_fleet (w : world) (f : nat) : option nat :=
 Definition fit_ship (w : world) (f : nat) : option nat :=
   match get_fit w f with Some ft => f_ship ft | None => None end.
 
+Definition item_is_loaded (w : world) (i : nat) : bool :=
+  match get_item w i with
+  | Some it => match i_loaded it with Some _ => true | None => false end
+  | None => false
+  end.
+
 (* ships of msg.fit and of the fits of the solar system in the same fleet *)
 Definition buff_tgt_ships (w : world) (s : nat) (f : nat) (fleet : option nat) : list (option nat) :=
   match get_ss w s with
@@ -244,7 +250,9 @@ Definition buff_tgt_ships (w : world) (s : nat) (f : nat) (fleet : option nat) :
                 if Nat.eqb tf f || (match fleet with
                                     | Some fl => onat_eqb (fit_fleet w tf) (Some fl)
                                     | None => false end)
-                then match fit_ship w tf with Some sh => [Some sh] | None => [] end
+                then match fit_ship w tf with
+                     | Some sh => if item_is_loaded w sh then [Some sh] else []
+                     | None => [] end
                 else []) (ss_fits x)
   end.
 
@@ -650,6 +658,7 @@ Section Publish.
                                           | None => al_set neqb g pf [x] end in
                            let g := match msg_ship with
                                     | Some sh => if onat_eqb (fit_fleet w pf) msg_fleet && negb (Nat.eqb pf f)
+                                                    && item_is_loaded w sh
                                                 then add g (pr, [Some sh]) else g
                                     | None => g end in
                            let g := if Nat.eqb pf f then
@@ -658,7 +667,10 @@ Section Publish.
                                       | Some fl =>
                                         fold_left (fun g of_ => if Nat.eqb of_ f then g
                                                                 else match fit_ship w of_ with
-                                                                     | Some sh => add g (pr, [Some sh])
+                                                                     | Some sh =>
+                                                                       if item_is_loaded w sh
+                                                                          && onat_eqb (fit_solsys w of_) (Some s)
+                                                                       then add g (pr, [Some sh]) else g
                                                                      | None => g end)
                                                   (match al_get neqb (w_fleets w) fl with Some l => l | None => [] end) g
                                       end
